@@ -25,6 +25,7 @@ func init() {
 		Rule{ID: "R09c", Doc: "stream responses are packed under the 65535 limit so that the 16-bit length prefix cannot wrap (shared with C09)", Floor: 6, Run: r09c},
 		Rule{ID: "R06c", Doc: "ReadMsgFromTCP reads the 2-byte prefix and the body with io.ReadFull (a short read must not be taken for a frame; shared with C06)", Floor: 6, AllVariants: true, Run: r06c},
 		Rule{ID: "R13e", Doc: "one frame, one Write on stream listeners", Floor: 4, Run: r13e},
+		Rule{ID: "R09b", Doc: "the room reserved for the trailing OPT is its packed length, so a packed response never exceeds the 65535 limit the prefix can express (shared with C09)", Floor: 14, AllVariants: true, Run: r09b},
 	)
 	reg("C19", "Structural necessary conditions of single-flight, non-delaying prefetch, decided for all paths: "+
 		"(R19a) the refresh goroutine is started only on the `reserve(key) == true` edge, exactly once, and calls done(key) with the same key on every path; reserve is a test-and-set and done a delete, both under the mutex, and nothing else writes the in-flight set; "+
